@@ -250,7 +250,7 @@ func c14perturb(rng *rand.Rand, proto string, ops []c14op) (string, []c14op, str
 
 func runC14(c *mon.Ctx) {
 	pool := NewPool(c.Rand("pool"), 64)
-	nb := c.Pick(240, 2400)
+	nb := c.Pick(240, 6000)
 	per := 60
 	for b := 0; b < nb; b++ {
 		if !c.Mine(b) {
